@@ -69,10 +69,13 @@ class RealTimeGuard(W.WorkCap):
     """Raised by SIGALRM when one eval takes absurdly long in *real* time although simulated work
     hardly advances (a native operation on a gigantic operand: repr of a huge object graph, ...).
     Counts as 'did not return' exactly like the work cap; the bound is far above any legitimate
-    run (12 s + 2.5 s per million cap units; a legitimate eval does well over 300 k units per second)."""
+    run (40 s + 5 s per million cap units; a legitimate eval does well over 300 k units per second even
+    on a loaded host).  A run ended by this guard is marked `realtime`: the driver reports it as a
+    violation only if it reproduces, and as a note about a slow host otherwise."""
 
 
 _guard_depth = [0]
+REALTIME_HITS = [0]     # evals of this process ended by the real-time guard
 
 
 def _alarm(signum, frame):
@@ -90,7 +93,7 @@ def run_eval(ctx, src, cap_extra, track=None):
     armed = False
     if _guard_depth[0] == 0 and threading.current_thread() is threading.main_thread():
         signal.signal(signal.SIGALRM, _alarm)
-        signal.setitimer(signal.ITIMER_REAL, 12.0 + cap_extra / 400_000.0)
+        signal.setitimer(signal.ITIMER_REAL, 40.0 + cap_extra / 200_000.0)
         armed = True
     _guard_depth[0] += 1
     try:
@@ -117,6 +120,9 @@ def _run_eval(ctx, src, cap_extra, track=None):
             out["value"] = W.canon(v)
         except BaseException as e:  # noqa
             kind, cls, msg = W.classify_exception(e)
+            if isinstance(e, RealTimeGuard):
+                out["realtime"] = True
+                REALTIME_HITS[0] += 1
             out["kind"] = kind
             out["cls"] = cls
             out["msg"] = msg
